@@ -531,3 +531,34 @@ Proof.
   - eapply core_plog; eauto.
   - rewrite E. cbn. apply IH.
 Qed.
+
+(* committed entries never change: what is within some commit index now is what every server will ever hold there once it
+   commits that index *)
+Theorem committed_stable_lemma cfg s1 s2 :
+  cfg_fifo cfg = true -> reachable cfg s1 -> steps cfg s1 s2 ->
+  forall i j idx, 1 <= idx -> idx <= s_commit (srv s1 i) -> idx <= s_commit (srv s2 j) ->
+    log_at (s_log (srv s2 j)) idx = log_at (s_log (srv s1 i)) idx /\ log_at (s_log (srv s1 i)) idx <> None.
+Proof.
+  intros Hf Hr Hs i j idx Hk1 Hki Hkj.
+  destruct (reachable_areach _ _ Hr) as (g1 & a1 & Ha1).
+  pose proof (areach_cinv _ _ _ _ Hf Ha1) as IC1.
+  destruct (areach_steps _ _ _ _ _ Hf Ha1 Hs) as (g2 & a2 & Ha2 & Hp & Hc).
+  pose proof (areach_greach _ _ _ _ Ha2) as Hg2. pose proof (greach_linv _ _ _ Hg2) as I2.
+  pose proof (areach_binv _ _ _ _ Hf Ha2) as IB2. pose proof (areach_cinv _ _ _ _ Hf Ha2) as IC2.
+  pose proof (cbound_ge (srv s1 i)) as Bi. pose proof (cbound_ge (srv s2 j)) as Bj.
+  destruct (C1 _ _ _ _ IC1 i) as [Z|(t & k & Ci & Hk & _ & Ei & _)]; [lia|].
+  destruct (C1 _ _ _ _ IC2 j) as [Z|(t' & k' & Cj & Hk' & _ & Ej & _)]; [lia|].
+  pose proof (Hc _ _ Ci) as Ci2. destruct Ci as [_ Ow1]. destruct (own_len _ _ _ Ow1) as [_ Hlen1].
+  pose proof (covered_len _ _ _ _ _ _ _ (C1 _ _ _ _ IC1 i)) as Li.
+  pose proof (covered_len _ _ _ _ _ _ _ (C1 _ _ _ _ IC2 j)) as Lj.
+  assert (E : firstn idx (s_log (srv s2 j)) = firstn idx (s_log (srv s1 i))).
+  { rewrite <- (firstn_firstn_le idx (cbound (srv s2 j)) (s_log (srv s2 j))) by lia.
+    rewrite <- (firstn_firstn_le idx (cbound (srv s1 i)) (s_log (srv s1 i))) by lia.
+    rewrite Ei, Ej, !firstn_firstn_le by lia.
+    rewrite (cpt_agree cfg s2 g2 a2 t' k' t k idx I2 IB2 Cj Ci2) by lia.
+    apply firstn_prefix_stable; [apply Hp|lia]. }
+  destruct idx as [|idx']; [lia|]. cbn [log_at]. split.
+  - rewrite <- (nth_error_firstn_lt (S idx') (s_log (srv s2 j))) by lia.
+    rewrite <- (nth_error_firstn_lt (S idx') (s_log (srv s1 i))) by lia. now rewrite E.
+  - intros Z. apply nth_error_None in Z. lia.
+Qed.
